@@ -200,6 +200,14 @@ func init() {
 				dst.store(nilIface)
 				return ret(nilIface)
 			}
+			// with the JSON object model enabled, an object parses to a Go map (macro expansion
+			// and sub-document functions walk into it)
+			if mt, ok := e.world["objMapType"].(types.Type); ok && len(e.props()) > 0 {
+				if e.branch(oisObj(cn)) {
+					dst.store(&IfaceV{T: mt, V: e.objOf(cn, mt, 1)})
+					return ret(nilIface)
+				}
+			}
 			dst.store(e.jval(cn))
 			return ret(nilIface)
 		case *types.Basic:
